@@ -29,9 +29,17 @@ EXHAUSTIVE = False
 BODY_LENS = [0, 1, 2, 231, 232, 233, 488, 4000, 65511]
 
 
+STATUSES = [0, 0, 1, 2, 3, 0x64, 0x65, 0x69, 0x04, 0x66, 0xFFFF, 0x80000000]
+COMMANDS = [0x70, 0x6F, 0x65, 0x63, 0x66, 0x04, 0x64, 0x00]
+
+
 def make_frame(L, salt=0):
+    """framing depends on the length field only: every other header field varies with `salt` (salt 0: a plain SendUnitData reply)"""
     body = bytes((i * 7 + salt) & 0xFF for i in range(L))
-    return struct.pack("<HHII8sI", 0x70, L, 0x11223344, 0, b"_pycomm_", 0) + body
+    if salt == 0:
+        return struct.pack("<HHII8sI", 0x70, L, 0x11223344, 0, b"_pycomm_", 0) + body
+    return struct.pack("<HHII8sI", COMMANDS[(salt // 12) % len(COMMANDS)], L, (salt * 0x01000193) & 0xFFFFFFFF, STATUSES[salt % len(STATUSES)],
+                       bytes((salt ^ (i * 37)) & 0xFF for i in range(8)), (salt >> 7) * 0xDEAD) + body
 
 
 def check_receive(L, cuts, fault=None, salt=0):
@@ -249,7 +257,8 @@ def run_job(ctx, job):
 
 
 def _rec(ctx, L, cuts, fault):
-    discs = check_receive(L, cuts, fault)
+    salt = (L * 5 + 3 * len(cuts) + sum(cuts[:3])) & 0xFF     # header contents vary over the enumerated cases too
+    discs = check_receive(L, cuts, fault, salt)
     ctx.evaluations += 1
     if cuts or fault:
         if len(ctx.nt) < 3_000_000:
@@ -260,7 +269,7 @@ def _rec(ctx, L, cuts, fault):
     if len(ctx.samples) < 3 and len(cuts) >= 2:
         ctx.samples.append({"body_len": L, "cuts": cuts[:10], "fault": fault})
     for d in discs:
-        ctx.violation(d, "recv", {"L": L, "cuts": cuts, "fault": list(fault) if fault else None, "salt": 0})
+        ctx.violation(d, "recv", {"L": L, "cuts": cuts, "fault": list(fault) if fault else None, "salt": salt})
 
 
 def replay(ctx, kind, case):
